@@ -37,6 +37,9 @@ def gen_cases(seed, tier):
         states.append([rng.word() for _ in range(12)])
     nfull = 24 if tier == 'quick' else 400
     cases = []
+    # chains: the permutation iterated on its own in-place result (calls whose input is the previous call's output)
+    for i in range(4 if tier == 'quick' else 40):
+        cases.append(('permchain', [rng.word() for _ in range(12)], [5]))
     stride = max(1, len(states) // nfull)
     for i, s in enumerate(states):
         full = (i % stride == 0) or i < 4
@@ -123,7 +126,10 @@ def directed_states(consts, seed, n):
 def write_cases(path, cases):
     with open(path, 'w') as f:
         for op, s, b in cases:
-            f.write(op + ' ' + ' '.join('0x%x' % x for x in s) + ' ' + ' '.join('0x%x' % x for x in b) + '\n')
+            if op == 'permchain':
+                f.write('permchain %d ' % b[0] + ' '.join('0x%x' % x for x in s) + '\n')
+            else:
+                f.write(op + ' ' + ' '.join('0x%x' % x for x in s) + ' ' + ' '.join('0x%x' % x for x in b) + '\n')
 
 
 def run(tier, seed, replay=None):
